@@ -146,6 +146,10 @@ def wellformed(spec):
 
 def _wf_constraints(cs, names, lv):
     for c in cs:
+        if "ref" in c and "kind" not in c:          # C18: reference into the case's constraint pool
+            if not isinstance(c["ref"], int) or c["ref"] < 0:
+                return False
+            continue
         k = c["kind"]
         if k == "min":
             if not isinstance(c["k"], int) or c["k"] < 1:
@@ -225,7 +229,7 @@ def features(spec):
         for c in block_crossings(b):
             crossed.update(c)
         for c in b.get("constraints", []):
-            labs.add("c-" + c["kind"])
+            labs.add("c-" + c.get("kind", "ref"))
             if c.get("level", 0) is None:
                 labs.add("factor-shorthand")
         if b["type"] == "multi":
